@@ -6,6 +6,8 @@
 mod frames;
 mod gen_color;
 mod gen_math;
+mod gen_meta;
+mod replay;
 mod gen_tf;
 mod gen_yuv;
 mod util;
@@ -70,6 +72,7 @@ fn main() {
                 "C08" => gen_yuv::gen_c08(&mut sh, &o),
                 "C03" => gen_tf::gen_c03(&mut sh, &o),
                 "C10" => gen_tf::gen_c10(&mut sh, &o),
+                "C14" => gen_meta::gen_c14(&mut sh, &o),
                 "C18" => gen_math::gen_c18(&mut sh, &o),
                 "C19" => gen_math::gen_c19(&mut sh, &o),
                 "C04" => gen_color::gen_c04(&mut sh, &o),
@@ -87,6 +90,16 @@ fn main() {
                     std::process::exit(2);
                 }
             };
+            let (events, bytes) = sh.finish();
+            println!("{}", serde_json::json!({"prop": prop, "build": build_tag(), "events": events, "bytes": bytes, "stats": stats}));
+        }
+        "replay" => {
+            // replay <cases.ndjson> <PROP> --out <dir>
+            let cases = pos.first().expect("cases file").clone();
+            let prop = pos.get(1).expect("property id").clone();
+            let mut sh = util::Shards::create(&o.out, &format!("{prop}-replay"), o.shards, &build_tag()).expect("create shards");
+            sh.set_prop(&prop);
+            let stats = replay::run(&cases, &mut sh, o.seed);
             let (events, bytes) = sh.finish();
             println!("{}", serde_json::json!({"prop": prop, "build": build_tag(), "events": events, "bytes": bytes, "stats": stats}));
         }
